@@ -1286,15 +1286,19 @@ class Tag(ShaFile):
                     self._message = None
                     self._signature = None
                 else:
-                    # Try to find either PGP or SSH signature
+                    # Try to find either PGP or SSH signature; like git, only
+                    # at the beginning of a line (a message may well mention
+                    # the armor line)
                     sig_idx = None
-                    try:
-                        sig_idx = value.index(BEGIN_PGP_SIGNATURE)
-                    except ValueError:
-                        try:
-                            sig_idx = value.index(BEGIN_SSH_SIGNATURE)
-                        except ValueError:
-                            pass
+                    for marker in (BEGIN_PGP_SIGNATURE, BEGIN_SSH_SIGNATURE):
+                        if value.startswith(marker):
+                            sig_idx = 0
+                        else:
+                            pos = value.find(b"\n" + marker)
+                            if pos < 0:
+                                continue
+                            sig_idx = pos + 1
+                        break
 
                     if sig_idx is not None:
                         self._message = value[:sig_idx]
